@@ -840,6 +840,17 @@ theorem E_stopNext (p : Bool) (g0 : G3) (s : Sess) (h : E p g0 s) : E p g0 (stop
   all_goals (try dsimp only)
   all_goals first | exact h | exact (by c3_peel : Pres p g0 s _) h
 
+theorem peel_setLastChecked {p : Bool} {g0 : G3} {s x : Sess} (n : Int) (hp : Pres p g0 s x) : Pres p g0 s (x.setLastChecked n) :=
+  hp.trans ((C02.Ext.of_eq (s := x) rfl rfl rfl rfl).pres3 p g0)
+macro_rules | `(tactic| c3_step) => `(tactic| apply peel_setLastChecked)
+
+/-- CheckResetTime: the reset Logon goes through `dropAndSend`, the queue of the old epoch is dropped with it -/
+theorem pres_checkResetTime (p : Bool) (g0 : G3) (s : Sess) (now : Int) : Pres p g0 s (checkResetTime s now) := by
+  unfold checkResetTime
+  repeat' split
+  all_goals (try dsimp only)
+  all_goals c3_peel
+
 /-- events the per-epoch clauses are stated for: the application does not submit a Logon with ResetSeqNumFlag=Y -/
 def benign : Ev → Bool
   | .send m => noResetLogon m
@@ -890,6 +901,7 @@ theorem E_stepCore (p : Bool) (g0 : G3) (s : Sess) (e : Ev) (hb : benign e = tru
     · exact pres_sendQueued p g0 _ h1
     · exact E_setToSend_nil h1
   | sessionTime r sm => exact hC s r sm h
+  | resetTime now => exact pres_checkResetTime p g0 s now h
 
 /-! ### liveness of one flush -/
 
